@@ -62,6 +62,11 @@ def stepOp (C : Crypto) (e : Ep) (t : String) : Option (Ep × String) :=
       let bs ← unhex hx
       let (e', outs) := onSend e bs
       some (e', showOuts03 e' outs)
+  | ["ws", n] => do
+      -- (verification hook `verif_set_write_seq`) the write counter is preset
+      let n ← n.toNat?
+      let e' := { e with writeSeq := n }
+      some (e', showOuts03 e' [])
   | ["cl"] =>
       let (e', outs) := onClose e
       some (e', showOuts03 e' outs)
